@@ -422,6 +422,50 @@ def answer_races_death(chk):
     chk.violation('answer-races-death:results', f'results {sorted(got)} != [101, 102]', ctx)
 
 
+def graceful_rejoin(chk, same_object=False):
+  """A worker announces its death, restarts under the same address and announces itself alive again: it has to be
+  usable again (the other worker then dies for good, so the run can only finish on the rejoined one).
+  same_object: stop() and start() on the same CourierServer object instead of a new one."""
+  from ml_metrics._src.chainables import lazy_fns
+  n_tasks = 8
+  with dist.cluster(2, master=True, call_timeout=20.0, heartbeat_threshold=90.0) as c:
+    got, notes = [], {}
+
+    def run():
+      c.pool.wait_until_alive(deadline_secs=600, minimum_num_workers=2)
+      tasks = (lazy_fns.trace(lib.add100)(10 * i) for i in range(n_tasks))
+      for x in c.mods.orchestrate.as_completed(c.pool, tasks):
+        got.append(x)
+        if len(got) == 2:
+          c.graceful_stop(0)
+          w0 = c.pool.all_workers[0]
+          notes['dead_after_notice'] = not w0.is_alive
+          c.restart(0, same_object=same_object)
+          t0 = time.time()
+          while not w0.is_alive and time.time() - t0 < 5:
+            time.sleep(0.005)
+          notes['alive_after_rejoin'] = w0.is_alive
+          c.kill(1)
+          dist.ScaledTime.jump(0.0)
+      return True
+
+    status, val = dist.run_with_deadline(run, 40)
+    acquired = [w.address for w in c.pool.acquired_workers]
+  chk.replayed()
+  how = 'same-object' if same_object else 'new-server'
+  ctx = dict(kind='dist', scenario=f'graceful death notice, restart under the same address ({how}), alive notice', notes=notes)
+  chk.coverage[f'graceful_rejoin_{how}'] = notes
+  if notes.get('alive_after_rejoin') is False:
+    chk.violation(f'rejoin:restarted-worker-stays-dead:{how}', 'the restarted worker is up but never announces itself / is still reported dead', ctx)
+    return
+  if status == 'hung':
+    chk.violation(f'rejoin:hung:{how}', f'results so far {sorted(got)}', ctx)
+  elif status == 'raised':
+    chk.violation(f'rejoin:error:{how}:{type(val).__name__}', f'{val!r} after results {sorted(got)}', ctx)
+  elif sorted(got) != sorted(lib.add100(10 * i) for i in range(n_tasks)):
+    chk.violation(f'rejoin:results:{how}', f'{sorted(got)}', ctx)
+
+
 def lib_trace(n, i, shards):
   from ml_metrics._src.chainables import lazy_fns
   return (lazy_fns.trace(lib.define_pipeline)(n, shard_index=i, num_shards=shards).make()
@@ -491,6 +535,8 @@ def body(chk):
   judge(chk, 'app-error element 3 raises', n, out, {}, expect_error=('RuntimeError', 'ValueError', 'ExceptionGroup'))
   as_completed_plans(chk, rnd)
   answer_races_death(chk)
+  graceful_rejoin(chk)
+  graceful_rejoin(chk, same_object=True)
   sched_traces(chk, rnd)
   # one-shot tasks (as_completed, run) are the L = 0 instance of the same retry loop
   consts0 = dict(Tasks={'t1', 't2', 't3'}, Workers={'w1', 'w2'}, L=0, Budget=2, Threshold=2, UsableWorker='w1', RecheckDone=True)
